@@ -134,12 +134,14 @@ pub fn expr(e: &A::Expr) -> Value {
         ETuple { items, .. } => json!({"k": "tuple", "es": items.iter().map(expr).collect::<Vec<_>>()}),
         EArray { items, .. } => json!({"k": "array", "es": items.iter().map(expr).collect::<Vec<_>>()}),
         ELet { pat, value, annotation, .. } => {
-            json!({"k": "let", "p": pat_json(pat), "ann": annotation.is_some(), "e": expr(value)})
+            json!({"k": "let", "p": pat_json(pat), "pt": pat_tree(pat), "ann": annotation.is_some(),
+                "annt": annotation.as_ref().map(type_expr), "e": expr(value)})
         }
         EClosure { params, body, .. } => json!({"k": "lam",
-            "ps": params.iter().map(|p| p.name.0.clone()).collect::<Vec<_>>(), "b": expr(body)}),
+            "ps": params.iter().map(|p| p.name.0.clone()).collect::<Vec<_>>(),
+            "pts": params.iter().map(|p| p.ty.as_ref().map(type_expr)).collect::<Vec<_>>(), "b": expr(body)}),
         EMatch { expr: e, arms, .. } => json!({"k": "match", "e": expr(e),
-            "arms": arms.iter().map(|a| json!({"p": pat_json(&a.pat), "b": expr(&a.body)})).collect::<Vec<_>>()}),
+            "arms": arms.iter().map(|a| json!({"p": pat_json(&a.pat), "pt": pat_tree(&a.pat), "b": expr(&a.body)})).collect::<Vec<_>>()}),
         EIf {
             cond,
             then_branch,
@@ -158,6 +160,31 @@ pub fn expr(e: &A::Expr) -> Value {
         EProj { tuple, index, .. } => json!({"k": "proj", "e": expr(tuple), "i": index}),
         EField { expr: e, field, .. } => json!({"k": "field", "e": expr(e), "f": field.0}),
         EBlock { exprs, .. } => json!({"k": "block", "es": exprs.iter().map(expr).collect::<Vec<_>>()}),
+    }
+}
+
+/// patterns as trees
+pub fn pat_tree(p: &A::Pat) -> Value {
+    use A::Pat::*;
+    match p {
+        PVar { name, .. } => json!({"k": "pvar", "n": name.0}),
+        PUnit { .. } => json!({"k": "punit"}),
+        PBool { value, .. } => json!({"k": "pbool", "v": value}),
+        PInt { value, .. } => json!({"k": "pint", "ty": "", "v": value}),
+        PInt8 { value, .. } => json!({"k": "pint", "ty": "int8", "v": value}),
+        PInt16 { value, .. } => json!({"k": "pint", "ty": "int16", "v": value}),
+        PInt32 { value, .. } => json!({"k": "pint", "ty": "int32", "v": value}),
+        PInt64 { value, .. } => json!({"k": "pint", "ty": "int64", "v": value}),
+        PUInt8 { value, .. } => json!({"k": "pint", "ty": "uint8", "v": value}),
+        PUInt16 { value, .. } => json!({"k": "pint", "ty": "uint16", "v": value}),
+        PUInt32 { value, .. } => json!({"k": "pint", "ty": "uint32", "v": value}),
+        PUInt64 { value, .. } => json!({"k": "pint", "ty": "uint64", "v": value}),
+        PString { value, .. } => json!({"k": "pstr", "bytes": value.as_bytes()}),
+        PConstr { constructor, args, .. } => json!({"k": "pcon", "p": path_str(constructor), "as": args.iter().map(pat_tree).collect::<Vec<_>>()}),
+        PStruct { name, fields, .. } => json!({"k": "pstruct", "p": path_str(name),
+            "fs": fields.iter().map(|(f, q)| json!({"f": f.0, "p": pat_tree(q)})).collect::<Vec<_>>()}),
+        PTuple { pats, .. } => json!({"k": "ptuple", "ps": pats.iter().map(pat_tree).collect::<Vec<_>>()}),
+        PWild { .. } => json!({"k": "pwild"}),
     }
 }
 
